@@ -6,3 +6,7 @@ reg("C09", "differential testing vs an independent Core/BIP143/BIP341 sighash tr
     "DESIGN.md §1 C09")
 _pending = ["C01","C02","C03","C04","C05","C06","C07","C08","C10","C11","C12","C13","C14","C15","C16","C17","C18","C19","C20"]
 NOT_APPLICABLE = [{"property_id": p, "reason": "check under construction in this build phase (planned in DESIGN.md); not yet claimed"} for p in _pending if p not in CHECKS]
+reg("C01", "exhaustive enumeration of all toy curves + Hypothesis differential testing vs a naive affine group law on the 27 catalogued curves",
+    "Every curve over every prime p<=23 (quick; <=43 thorough), every (a,b), every prime-order subgroup: constructor verdict equals an independent SEC 1 predicate over the brute-force point count, and mult / PreparedPoint.mult / double_mult_var equal the cyclic-group table for every scalar in [-n-1,2n+1] (plus 2^256-size ones) and every point incl. infinity - exhaustive on that finite domain. Catalogued curves, multi-scalar sums on both sides of the wNAF/Bos-Coster switch, both backends, off-curve refusals, modular helpers (every modulus<200 exhaustively; big primes of every residue class and 2-adicity) and SEC encodings are sampled by Hypothesis against the model.",
+    "Trusted: vlib/models/ec_ref.py (textbook addition + double-and-add, validated on group axioms), Python pow/gcd. Cryptographic-size caller-defined curves are represented by the catalogue only.",
+    "DESIGN.md §1 C01")
